@@ -641,7 +641,22 @@ func TestVerifC04(t *testing.T) {
 		if err := jsonUnmarshal(raw, &c); err != nil {
 			t.Fatal(err)
 		}
-		if c.E2E != "" {
+		if c.E2E == "if-premature-end" {
+			src := "on: push\njobs:\n  a:\n    runs-on: ubuntu-latest\n    steps:\n      - run: echo\n        if: '" + strings.ReplaceAll(c.Src, "'", "''") + "'\n"
+			for k := 0; k < 2; k++ {
+				res := vLint(src, nil)
+				fmt.Printf("replay %d:\n%s\ndiagnostics: %v\n", k, src, vDiagStrings(res.Errs))
+				n := 0
+				for _, d := range vDiags(res.Errs) {
+					if d.Kind == "expression" && c04SyntaxRe.MatchString(d.Msg) && d.Line == 7 && d.Col >= 13 {
+						n++
+					}
+				}
+				if n != 1 {
+					r.Violation("e2e-bare-if-premature-end", fmt.Sprintf("if: %q: %d syntax diagnostics", c.Src, n), c)
+				}
+			}
+		} else if c.E2E != "" {
 			c04E2E(r, c.Src)
 			c04E2E(r, c.Src)
 		} else {
@@ -753,6 +768,54 @@ func TestVerifC04(t *testing.T) {
 		}
 	}
 	r.Bounds["separator_alphabet"] = len(seps)
+	// (e) an if: condition written without ${{ }} that holds "}}" itself: the text is not a sentence,
+	// whatever precedes and follows the marker (every accepted token sequence <= 2 x 7 tails)
+	tails := []string{"", " x", " && true", " ${{ 1", " }}", " 's'", " ${{ nosuch"}
+	for l := 1; l <= 2; l++ {
+		total := int64(1)
+		for i := 0; i < l; i++ {
+			total *= k
+		}
+		for v := int64(0); v < total; v++ {
+			seq = seq[:0]
+			x := v
+			for i := 0; i < l; i++ {
+				seq = append(seq, c04Tokens[x%k])
+				x /= k
+			}
+			head := strings.Join(seq, " ")
+			if !c04Reference(head + " }}").accept {
+				continue
+			}
+			for _, tail := range tails {
+				idx++
+				if !r.Mine(idx) {
+					continue
+				}
+				cond := head + " }}" + tail
+				src := "on: push\njobs:\n  a:\n    runs-on: ubuntu-latest\n    steps:\n      - run: echo\n        if: '" + strings.ReplaceAll(cond, "'", "''") + "'\n"
+				r.Begin(func() string { return fmt.Sprintf("bare if %q", cond) })
+				res := vLint(src, nil)
+				r.Evaluations++
+				r.Transitions++
+				r.Validated++
+				replay := map[string]any{"src": cond, "e2e": "if-premature-end"}
+				if res.Panic != "" || res.Err != nil {
+					r.Violation("e2e-failure", fmt.Sprintf("bare if %q: panic=%q err=%v", cond, vTrunc(res.Panic, 200), res.Err), replay)
+					continue
+				}
+				n := 0
+				for _, d := range vDiags(res.Errs) {
+					if d.Kind == "expression" && c04SyntaxRe.MatchString(d.Msg) && d.Line == 7 && d.Col >= 13 {
+						n++
+					}
+				}
+				if n != 1 {
+					r.Violation("e2e-bare-if-premature-end", fmt.Sprintf("if: %q is not a sentence (\"}}\" inside a condition that is not surrounded by ${{ }}) but got %d syntax diagnostics: %v", cond, n, vDiagStrings(res.Errs)), replay)
+				}
+			}
+		}
+	}
 	// (b) character strings
 	kc := int64(len(c04Chars))
 	buf := make([]byte, 0, m+2)
